@@ -188,6 +188,9 @@ fn run<X: El, N: ArrayLength>(sc: &str, f: usize, b: usize, skip: usize) {
         "zip.ref_owned" => { let a = arr::<X, N>(); let b2: GenericArray<X, N> = GenericArray::generate(|i| X::new(i + 16)); let z: GenericArray<u32, N> = (&a).zip(b2, |x, y| { tick(); (x.idv() + y.idv()) as u32 }); drop(z); drop(a); }
         "zip.owned_ref" => { let a = arr::<X, N>(); let b2: GenericArray<X, N> = GenericArray::generate(|i| X::new(i + 16)); let z: GenericArray<u32, N> = a.zip(&b2, |x, y| { tick(); (x.idv() + y.idv()) as u32 }); drop(z); drop(b2); }
         "map.ref" => { let a = arr::<X, N>(); let m: GenericArray<X, N> = (&a).map(|x| { tick(); X::new(x.idv() + 16) }); drop(m); drop(a); }
+        // a drop-tracked accumulator (an in-place accumulator update can double-drop it when the closure panics)
+        "fold.acc" => { let a = arr::<X, N>(); let r = a.fold(X::new(40), |acc, x| { tick(); let k = x.idv(); drop(acc); drop(x); X::new(41 + k % 8) }); drop(r); }
+        "iter.fold.acc" => { let it = position::<X, N>(f, b); let r = it.fold(X::new(40), |acc, x| { tick(); let k = x.idv(); drop(acc); drop(x); X::new(41 + k % 8) }); drop(r); }
         "fold.ref" => { let a = arr::<X, N>(); let _ = (&a).fold(0usize, |acc, x| { tick(); acc + x.idv() }); drop(a); }
         "clone" => { let a = arr::<X, N>(); let r = catch_unwind(AssertUnwindSafe(|| a.clone())); drop(a); match r { Ok(c) => drop(c), Err(e) => std::panic::resume_unwind(e) } }
         "try_from_iter" => { for cnt in [n, n + 1, n.saturating_sub(1)] { let r = GenericArray::<X, N>::try_from_iter(Src::<X> { left: cnt, next_id: 0, _x: std::marker::PhantomData }); drop(r); } }
@@ -698,7 +701,8 @@ fn main() {
     let variants: Vec<String> = match args[1].as_str() {
         "zip" => ["zip", "zip.left_plain", "zip.right_plain", "zip.ref_owned", "zip.owned_ref"].iter().map(|s| s.to_string()).collect(),
         "map" => vec!["map".into(), "map.ref".into()],
-        "fold" => vec!["fold".into(), "fold.ref".into()],
+        "fold" => vec!["fold".into(), "fold.ref".into(), "fold.acc".into()],
+        "iter.fold" => vec!["iter.fold".into(), "iter.fold.acc".into()],
         s => vec![s.to_string()],
     };
     let mut r = None;
